@@ -119,6 +119,7 @@ class SqlMachine:
         self.nconn = 0
         self.fault_used = False
         self.cell_values = {}
+        self.last_insert = {}
         self._install()
 
     def row_value(self, row, col):
@@ -131,6 +132,7 @@ class SqlMachine:
         return Opaque(f"{row.label}[{col}]")
 
     def reset_path(self):
+        self.last_insert = {}
         self.trace = []
         self.nconn = 0
         self.fault_used = False
@@ -164,6 +166,8 @@ class SqlMachine:
         def execute(I, cur, a, k, n, script=False):
             sql = a[0] if a else None
             kind, table = classify(sql)
+            if len(a) > 1 or "parameters" in k:
+                mach.ev("bind", kind, table, a[1] if len(a) > 1 else k["parameters"])      # the values bound to the statement
             mach.ev("script" if script else "sql", kind, table, sql if isinstance(sql, str) else I.describe(sql), cur.attrs["n"],
                     getattr(n, "lineno", None), I.stack[-1].short if I.stack else None)
             if mach.inject and not mach.fault_used and kind != "PRAGMA":
@@ -174,6 +178,8 @@ class SqlMachine:
                     mach.ev("fault", f, kind, table)
                     raise Raised(ExcVal(_BUILTIN_EXC[f], node=n, msg="injected", func=I.stack[-1] if I.stack else None))
             cur.attrs["last"] = (kind, table)
+            if kind == "INSERT":
+                mach.last_insert[cur.attrs["n"]] = table
             cur.attrs["sql"] = sql if isinstance(sql, str) else None
             if cur.attrs.get("pending"):
                 mach.ev("discard-pending", cur.attrs["pending"], kind, table)
@@ -228,7 +234,8 @@ class SqlMachine:
         M[("Cursor", "__iter__")] = fetchall
         A[("Cursor", "connection")] = lambda I, v, n: Obj(kind="Conn", label=f"conn{v.attrs['n']}", attrs={"n": v.attrs["n"]})
         M[("Cursor", "close")] = lambda I, v, a, k, n: mach.ev("cursor-close", v.attrs["n"])
-        A[("Cursor", "lastrowid")] = lambda I, v, n: Num.atom("lastrowid")
+        # lastrowid names the table of the cursor's most recent INSERT: a later INSERT (e.g. a nested auto-insert on the same cursor) changes it
+        A[("Cursor", "lastrowid")] = lambda I, v, n: Num.atom("rowid:" + str(mach.last_insert.get(v.attrs["n"], "none")))
         A[("Cursor", "rowcount")] = lambda I, v, n: Num.atom("rowcount")
 
         def row_get(I, row, a, k, n):
